@@ -357,7 +357,11 @@ func encStream(r *vh.Rng, n int, cv *vh.Cases, sum *vh.Summary, id *int) {
 			rt = g.randStruct(1 + r.Intn(3))
 		}
 		quirks := r.Chance(1, 4)
-		if r.Chance(1, 6) {
+		if i < 3*len(fixedTypes) {
+			// every run starts with the whole fixed corpus: plain values, then twice with the memory shapes
+			rt = fixedTypes[i%len(fixedTypes)]
+			quirks = i >= len(fixedTypes)
+		} else if r.Chance(1, 6) {
 			// the omitempty-focused corpus, with the memory shapes the emptiness tests treat differently
 			rt = []reflect.Type{reflect.TypeOf(FixOmit{}), reflect.TypeOf(FixOmitArr{}), reflect.TypeOf(FixOwnInfo{}),
 				reflect.TypeOf(FixBig{}), reflect.TypeOf(FixBigArr{}), reflect.TypeOf(FixBigAll{}),
@@ -368,6 +372,9 @@ func encStream(r *vh.Rng, n int, cv *vh.Cases, sum *vh.Summary, id *int) {
 		v := reflect.New(rt).Elem()
 		fillVal(r, v, valOpts{quirks: quirks, iface: true}, 0)
 		sta, rec := r.Chance(1, 4), r.Chance(1, 4)
+		if i < 3*len(fixedTypes) {
+			sta, rec = i >= 2*len(fixedTypes), false // third pass: StructToArray
+		}
 		info, err := codec.VerifStructInfoOf(handleFor("cbor", vh.Opts{}), rt)
 		if err != nil {
 			continue
@@ -598,6 +605,9 @@ func decStream(r *vh.Rng, n int, cv *vh.Cases, sum *vh.Summary, id *int) {
 			rt = g.intKeyStruct()
 		default:
 			rt = g.randStruct(1 + r.Intn(3))
+		}
+		if i < len(fixedTypes) {
+			rt = fixedTypes[i] // the whole fixed corpus first
 		}
 		if rt == reflect.TypeOf(FixIface{}) {
 			continue
